@@ -254,6 +254,18 @@ def run(ctx):
             if fails:
                 ctx.impl_violation(f"{name} -> {lab} (after the parent's plaquettes were computed): {fails[0]}", dict(case=name, derived=lab, lattice=zoo.lat_to_json(ch), failures=[str(f) for f in fails[:5]])); break
             ctx.case((name, "derived", lab), nontrivial=True)
+    # face walks of several thousand steps (a polygon with 4100 sides; a comb whose outline has more than 4096 sides is the same walk): one plaquette with every
+    # edge once, in order.  The unchanged walk is quadratic in its length (about 20 s for this one).
+    for n_ in ((4100,) if ctx.tier == "quick" else (4100, 5000)):
+        try:
+            big = eg.single_plaquette(n_)
+            ps_ = big.plaquettes
+            ok = len(ps_) == 1 and ps_[0].n_sides == n_ and sorted(int(x) for x in ps_[0].edges) == list(range(n_)) and len(set(int(x) for x in ps_[0].vertices)) == n_
+            if not ok:
+                ctx.impl_violation(f"single_plaquette({n_}): the plaquettes are not the one polygon with {n_} sides ({len(ps_)} plaquettes, sizes {[int(p.n_sides) for p in ps_][:5]})", dict(case=f"single{n_}", generator=f"single_plaquette({n_})"))
+        except Exception as ex:
+            ctx.impl_violation(f"single_plaquette({n_}): computing the plaquettes raised {type(ex).__name__}: {ex}", dict(case=f"single{n_}", generator=f"single_plaquette({n_})"))
+        ctx.case((f"single{n_}", "long face walk"), nontrivial=True); ctx.count("face_walks_longer_than_4096")
     core.history_check(ctx, "import numpy as np\nfrom koala import example_graphs as eg, voronization as vz, graph_utils as gu, quasicrystals as qc, phase_diagrams as pdg, hamiltonian as ham\nfrom koala.flux_finder import flux_finder as ff\n\ndef _canon(l):\n    parts = [l.vertices.positions.ravel(), l.edges.indices.ravel().astype(float), l.edges.crossing.ravel().astype(float)]\n    return np.concatenate(parts)\ndef _plaq(l):\n    out = []\n    for p in l.plaquettes:\n        out += [float(len(p.edges))] + [float(x) for x in p.edges] + [float(x) for x in p.directions] + [float(x) for x in p.vertices] + [float(x) for x in p.center]\n    return np.array(out)\n_pts = np.random.default_rng(123).uniform(size=(14, 2))\n", ["_plaq(vz.generate_lattice(_pts))", "_plaq(eg.honeycomb_lattice(2))", "_plaq(eg.tri_square_pent())"], label="Lattice.plaquettes of")
     ctx.assumptions += [
         "float arctan2 ordering and winding are replaced in the model by exact predicates; inputs whose smallest angular gap has sin^2 < 1e-18 are precondition-excluded (counted)",
